@@ -6,7 +6,8 @@ from symx import core
 h = importlib.import_module('harness.' + sys.argv[1].lower())
 tier = sys.argv[4] if len(sys.argv) > 4 else 'quick'
 job = [j for j in h.jobs(tier) if j.name == sys.argv[2]][0]
-ex = core.Explorer(W=job.W, budget_s=float(sys.argv[3]), allow_symmul=job.allow_symmul)
+ex = core.Explorer(W=job.W, budget_s=float(sys.argv[3]), allow_symmul=job.allow_symmul, incremental=job.incremental)
+ex.optimistic = job.optimistic
 if job.setup: job.setup(ex)
 import cProfile, pstats
 pr = cProfile.Profile(); pr.enable()
